@@ -548,6 +548,13 @@ func RunHarness(g *Engine, h *HarnessRun) (*HarnessResult, error) {
 	if h.TimeoutS == 0 {
 		h.TimeoutS = 600
 	}
+	if v := os.Getenv("VERIF_MAX_HARNESS_S"); v != "" {
+		var cap int
+		fmt.Sscanf(v, "%d", &cap)
+		if cap > 0 && h.TimeoutS > cap {
+			h.TimeoutS = cap // experiments: cap the time budget of every harness
+		}
+	}
 	if h.Solver == "" {
 		h.Solver = "z3-new"
 	}
